@@ -9,13 +9,16 @@ import signal
 import time
 
 BEHAVIOURS = ['equal', 'different', 'player_raises', 'extractor_raises', 'comparator_raises', 'bare_status',
-              'exit', 'hang', 'late', 'hang_sigterm_ignored', 'dies_after_giveup', 'bad_answer']
+              'exit', 'hang', 'late', 'hang_sigterm_ignored', 'dies_after_giveup', 'bad_answer', 'killed_in_poll']
+# killed_in_poll: the worker is killed at the instant it is inside the poll of the shared terminate event (its loop
+#             polls it between tasks); the harness emulates that instant by taking the event's internal lock in the
+#             worker and then hanging - a SIGKILLed process never releases it
 # bad_answer: the worker answers, but the answer cannot be unpickled by the parent (dedicated mode only): a framework
 #             failure for that id while the worker stays alive and keeps serving
 # hang_sigterm_ignored: the replayed code has installed a SIGTERM handler (as services do) and then hangs
 # dies_after_giveup:    the worker hangs past the timeout and dies by itself right after the parent decided "timed out"
 #                       (window held open by a harness logging handler on the Equalizer's own warning)
-PROCESS_FAULTS = ('exit', 'hang', 'late', 'hang_sigterm_ignored', 'dies_after_giveup')
+PROCESS_FAULTS = ('exit', 'hang', 'late', 'hang_sigterm_ignored', 'dies_after_giveup', 'killed_in_poll')
 
 
 class _Flag(object):
@@ -120,6 +123,7 @@ def run_scenario(scenario):
     # lock-free shared flags (an mp.Event deadlocks its setter when a waiter was killed while waiting)
     gave_up, answered = _Flag(), _Flag()
     cur = {'id': None, 'yielded': 0}
+    holder = {}
     me = os.getpid()
     before_children = set(p for p, _ in children_of(me))
 
@@ -144,6 +148,13 @@ def run_scenario(scenario):
         elif b == 'hang_sigterm_ignored':
             if os.getpid() != me:
                 signal.signal(signal.SIGTERM, signal.SIG_IGN)
+                time.sleep(1000)
+        elif b == 'killed_in_poll':
+            if os.getpid() != me:
+                ev = getattr(holder.get('eq'), '_terminate_process', None)
+                cond = getattr(ev, '_cond', None)
+                if cond is not None:
+                    cond.acquire()
                 time.sleep(1000)
         elif b == 'dies_after_giveup':
             if os.getpid() != me:
@@ -222,7 +233,7 @@ def run_scenario(scenario):
     out = {'comparisons': [], 'times': [], 'error': None}
     os.kill = slow_kill
     t0 = time.time()
-    cap = int(scenario.get('hard_cap_s', 120))
+    cap = int(scenario.get('hard_cap_s', 60))
 
     def on_alarm(signum, frame):
         import traceback
@@ -233,6 +244,7 @@ def run_scenario(scenario):
     signal.alarm(cap)
     try:
         eq = Equalizer(id_iter(), player, extractor, comparator, compare_execution_config=cfg)
+        holder['eq'] = eq
         consume = scenario.get('consume', 'full')
         gen = None
         if consume != 'never':
